@@ -62,6 +62,26 @@ theorem slot_lt' {L nnz blocks b k : Nat} (hb : b < blocks) (hk : k < nnz) :
     rw [e1, e2]
     omega
 
+theorem slot_inj' {L nnz b k b' k' : Nat} (hk : k < nnz) (hk' : k' < nnz)
+    (h : slot L nnz b k = slot L nnz b' k') : b = b' ∧ k = k' := by
+  unfold slot at h
+  by_cases hL : L = 0
+  · simp only [hL, if_true] at h
+    have h' : b * nnz + k = b' * nnz + k' := by omega
+    exact mul_add_inj hk hk' h'
+  · simp only [hL, if_false] at h
+    have hL' : 0 < L := Nat.pos_of_ne_zero hL
+    have h1 : k * L + b % L < nnz * L := mul_add_lt hk (Nat.mod_lt _ hL')
+    have h1' : k' * L + b' % L < nnz * L := mul_add_lt hk' (Nat.mod_lt _ hL')
+    have e1 : b / L * L * nnz = b / L * (nnz * L) := by ac_rfl
+    have e2 : b' / L * L * nnz = b' / L * (nnz * L) := by ac_rfl
+    rw [e1, e2] at h
+    have h' : b / L * (nnz * L) + (k * L + b % L) = b' / L * (nnz * L) + (k' * L + b' % L) := by omega
+    obtain ⟨h2, h3⟩ := mul_add_inj h1 h1' h'
+    obtain ⟨h4, h5⟩ := mul_add_inj (Nat.mod_lt _ hL') (Nat.mod_lt _ hL') h3
+    refine ⟨?_, h4⟩
+    rw [← Nat.div_add_mod b L, ← Nat.div_add_mod b' L, h2, h5]
+
 theorem addr_row1 (r n c : Nat) : (DenseShape.mk r n 0).addr c = fun j => c * n + j * 1 + 0 := by
   funext j; simp [DenseShape.addr]
 
@@ -468,7 +488,7 @@ theorem doolittleVecGroup_eq (L nc : Nat) (rows : List DRow) (A : Array α) (off
             (lanesDo nc (fun Lo l => wr Lo (offL + r.lii * L + l) 1) LU.1),
           dooUFlat L nc A offA offL offU LU.1 r.u LU.2)) LU := rfl
 
-theorem doolittleCell_eq (rows : List DRow) (A : Array α) (LU : Array α × Array α) :
+theorem doolittleCell_eq_split (rows : List DRow) (A : Array α) (LU : Array α × Array α) :
     doolittleCell rows A LU =
       rows.foldl (fun (LU : Array α × Array α) r =>
         (dooLCell A (dooUCell A LU.1 r.u LU.2) r.uii r.l (wr LU.1 r.lii 1), dooUCell A LU.1 r.u LU.2)) LU := rfl
@@ -591,7 +611,7 @@ theorem doolittleVecGroup_view (L nc m : Nat) (hm : m < nc) (hnc : nc ≤ L) (ro
         (doolittleCell rows a s).1 ∧
     View nnzU (fun j => offU + j * L + m) (doolittleVecGroup L nc rows A offA offL offU S).2
         (doolittleCell rows a s).2 := by
-  rw [doolittleVecGroup_eq, doolittleCell_eq]
+  rw [doolittleVecGroup_eq, doolittleCell_eq_split]
   refine foldl_rel (fun (S s : Array α × Array α) =>
     View nnzL (fun j => offL + j * L + m) S.1 s.1 ∧ View nnzU (fun j => offU + j * L + m) S.2 s.2)
     _ _ rows ?_ h
@@ -790,7 +810,7 @@ theorem solveVecGroup_eq (L n : Nat) (fw bw : List SubRow) (Lo Up : Array α) (o
       (subPassFlat L Up offX offU (fun i => if i = 0 then 0 else i - 1) bw
         ((subPassFlat L Lo offX offL (fun i => i + 1) fw (x, 0)).1, n - 1)).1 := rfl
 
-theorem solveCell_eq (fw bw : List SubRow) (Lo Up x : Array α) :
+theorem solveCell_eq_split (fw bw : List SubRow) (Lo Up x : Array α) :
     solveCell fw bw Lo Up x =
       (subPassCell Up (fun i => if i = 0 then 0 else i - 1) bw
         ((subPassCell Lo (fun i => i + 1) fw (x, 0)).1, (subPassCell Lo (fun i => i + 1) fw (x, 0)).1.size - 1)).1 := rfl
@@ -878,7 +898,7 @@ theorem solveVecGroup_view (L m : Nat) (hm : m < L) (n nnzL nnzU : Nat) (fw bw :
     (X x : Array α) (h : View n (fun j => offX + j * L + m) X x) :
     View n (fun j => offX + j * L + m) (solveVecGroup L n fw bw Lo Up offX offL offU X)
       (solveCell fw bw lo up x) := by
-  rw [solveVecGroup_eq, solveCell_eq]
+  rw [solveVecGroup_eq, solveCell_eq_split]
   have h1 := subPassFlat_view L m hm n nnzL Lo lo offX offL hLo (fun i => i + 1) (fun i k => i + k ≤ n)
     (fun i k hik => ⟨by omega, by omega⟩) fw hfw X x 0 (by omega) h
   rw [h1.size]
